@@ -217,6 +217,46 @@ func checkC02(c *Ctx, r *Report) {
 				}
 			}
 		}
+		if !ok {
+			// sort-then-build form: the thresholds (the map's keys) are collected into a
+			// slice that is sorted ascending, and the table is then built by ranging
+			// over that sorted slice, each entry's fileSize coming from the element
+			for _, cs := range callsInNamed(nc, "sort.Slice") {
+				mc, isMC := cs.Instr.Common().Args[1].(*ssa.MakeClosure)
+				if !isMC || len(mc.Bindings) != 1 {
+					continue
+				}
+				keys := mc.Bindings[0] // the captured slice variable
+				less := mc.Fn.(*ssa.Function)
+				asc := false
+				for _, ret := range returnsOf(less) {
+					b, isB := ret.Results[0].(*ssa.BinOp)
+					if !isB || b.Op != token.LSS {
+						continue
+					}
+					viaKeys := func(v ssa.Value, p *ssa.Parameter) bool {
+						return mentions(v, func(w ssa.Value) bool { return w == ssa.Value(p) }, 6) &&
+							mentions(v, func(w ssa.Value) bool { return w == ssa.Value(less.FreeVars[0]) }, 6)
+					}
+					if viaKeys(b.X, less.Params[0]) && viaKeys(b.Y, less.Params[1]) && !viaKeys(b.X, less.Params[1]) && !viaKeys(b.Y, less.Params[0]) {
+						asc = true
+					}
+				}
+				if !asc || !mentions(cs.Instr.Common().Args[0], func(w ssa.Value) bool { return w == keys }, 4) {
+					continue
+				}
+				for _, l := range rangeLoops(nc) {
+					if l.IsMap || !mentions(l.Ranged, func(w ssa.Value) bool { return w == keys }, 3) || !precedesBlock(cs.Instr, l.Header) {
+						continue
+					}
+					for _, st := range storesToField(nc, "lib/metainfogen.rangeConfig.fileSize") {
+						if l.contains(st.Block()) && l.derivesFromElem(st.Val) {
+							ok = true
+						}
+					}
+				}
+			}
+		}
 		r.Check(ok, p1, nc, "thresholds sorted ascending", nil, "sort.Slice by fileSize <", "the threshold table is not sorted ascending by size")
 	}
 	if g := r.MustFunc(p1, "(*lib/metainfogen.pieceLengthConfig).get"); g != nil {
